@@ -41,6 +41,15 @@ def gen_bloom(tier, rng):
                 keys.append(keys[0])
             cases.append("b%d %d %s %s" % (i, bpk, rkey(rng), ",".join(keys)))
             i += 1
+    # a filter written under one bits-per-key setting and read by a policy object configured with
+    # another (options changed between two opens): the probe count stored in the filter decides
+    for rep in range(60 if tier == "quick" else 1500):
+        bw, br = rng.choice([1, 2, 4, 7, 10, 16, 30, 64]), rng.choice([1, 2, 4, 7, 10, 16, 30, 64, 128])
+        if bw == br:
+            continue
+        keys = [rkey(rng) for _ in range(rng.choice([1, 3, 10, 60, 300]))]
+        cases.append("b%d %d %s %s %d" % (i, bw, rkey(rng), ",".join(keys), br))
+        i += 1
     # every key length 0..9 alone and together
     for bpk in (1, 10, 64):
         for l in range(0, 10):
